@@ -13,19 +13,20 @@ import (
 
 // Opts are the bounds and switches of one harness run; all of them are reported in the evidence.
 type Opts struct {
-	Workers  int
-	Preempt  int  // preemption bound; -1 = goroutines of the target are not started (Tier A)
-	MaxZeros int  // skiplist tower height bound minus one
-	Thorough bool // harnesses read this through vsym.Thorough()
-	MaxPaths int
-	BudgetS  float64 // wall-clock budget for exploration (0 = none)
-	StepCap  int     // per-path instruction budget (unwinding bound)
-	Validate int     // terminated paths sampled for native differential validation
-	Samples  int     // sample paths written to the evidence
-	Verbose  bool
-	Seed     int64
-	Trace    bool
-	ConcCap  int
+	Workers    int
+	Preempt    int  // preemption bound; -1 = goroutines of the target are not started (Tier A)
+	MaxZeros   int  // skiplist tower height bound minus one
+	Thorough   bool // harnesses read this through vsym.Thorough()
+	MaxPaths   int
+	BudgetS    float64 // wall-clock budget for exploration (0 = none)
+	StepCap    int     // per-path instruction budget (unwinding bound)
+	Validate   int     // terminated paths sampled for native differential validation
+	Samples    int     // sample paths written to the evidence
+	Verbose    bool
+	Seed       int64
+	Trace      bool
+	ConcCap    int
+	Background map[string]bool // ticker-driven background loops of kevo that are started as (daemon) threads
 }
 
 // Sample is one terminated path written out for the evidence / for native validation.
